@@ -122,7 +122,7 @@ class S:
         avoid = set(avoid)
         seen = set()
         out = set()
-        stack = [(n, None) for n in start_nodes if n not in avoid]
+        stack = [(n, frozenset()) for n in start_nodes if n not in avoid]
         while stack:
             x, pend = stack.pop()
             if (x, pend) in seen:
@@ -130,18 +130,23 @@ class S:
             seen.add((x, pend))
             out.add(x)
             if x in tm:
-                pend = tm[x]
+                news = dict((S_, k) for S_, k in pend)
+                for S_, k in tm[x]:
+                    news[S_] = k
+                pend = frozenset(news.items())
             succs = cfg.succ[x]
-            if pend is not None and x == pend[0]:
+            forced = [k for S_, k in pend if S_ == x]
+            if forced:
                 # forced arm of the switch
+                k = forced[0]
                 allowed = []
                 for e in cfg.out_edges[x]:
-                    if e.label[0] == "switch" and e.label[1] == pend[1]:
+                    if e.label[0] == "switch" and e.label[1] == k:
                         allowed.append(e.node)
-                    elif e.label[0] == "otherwise" and pend[1] not in e.label[1]:
+                    elif e.label[0] == "otherwise" and k not in e.label[1]:
                         allowed.append(e.node)
                 succs = allowed
-                pend = None
+                pend = frozenset((S_, kk) for S_, kk in pend if S_ != x)
             for y in succs:
                 if y not in avoid:
                     stack.append((y, pend))
@@ -164,24 +169,29 @@ class S:
                 done.append(path)
                 return
             if x in tm:
-                pend = tm[x]
+                news = dict(pend)
+                for S_, k in tm[x]:
+                    news[S_] = k
+                pend = frozenset(news.items())
             succs = cfg.succ[x]
-            if pend is not None and x == pend[0]:
+            forced = [k for S_, k in pend if S_ == x]
+            if forced:
+                k = forced[0]
                 allowed = []
                 for e in cfg.out_edges[x]:
-                    if e.label[0] == "switch" and e.label[1] == pend[1]:
+                    if e.label[0] == "switch" and e.label[1] == k:
                         allowed.append(e.node)
-                    elif e.label[0] == "otherwise" and pend[1] not in e.label[1]:
+                    elif e.label[0] == "otherwise" and k not in e.label[1]:
                         allowed.append(e.node)
                 succs = allowed
-                pend = None
+                pend = frozenset((S_, kk) for S_, kk in pend if S_ != x)
             nxt = [y for y in succs if y not in onpath]
             if not nxt:
                 other[0] += 1
                 return
             for y in nxt:
                 go(y, pend, path, onpath | {x})
-        go(start, None, [], frozenset())
+        go(start, frozenset(), [], frozenset())
         return done, other[0]
 
     def value_on_path(self, fn, path, v, depth=0):
